@@ -39,6 +39,7 @@ var probes = []probe{
 	{"switch-to-if", "every expression switch without break / fallthrough (and with a side-effect-free tag) is rewritten as an if / else-if chain", probeSwitchToIf},
 	{"if-to-switch", "every if / else-if chain of at least two conditions without break statements is rewritten as a tagless switch", probeIfToSwitch},
 	{"split-and", "every 'if a && b' without else is rewritten as two nested ifs", probeSplitAnd},
+	{"loop-leading-break", "every 'for cond { ... }' is rewritten as 'for { if !(cond) { break }; ... }'", probeLoopLeadingBreak},
 }
 
 func applyEdits(src []byte, edits []textEdit) ([]byte, error) {
@@ -703,6 +704,39 @@ func probeIfToSwitch(p *Prog) (map[string][]byte, int, error) {
 				done = append(done, [2]token.Pos{is.Pos(), is.End()})
 				n++
 			}
+			return true
+		})
+	}
+	ov, err := finishOverlay(p, perFile)
+	return ov, n, err
+}
+
+// ---- loop-leading-break ----
+
+func probeLoopLeadingBreak(p *Prog) (map[string][]byte, int, error) {
+	perFile := map[string][]textEdit{}
+	src := map[string][]byte{}
+	n := 0
+	for _, f := range p.sortedFiles() {
+		ast.Inspect(f, func(x ast.Node) bool {
+			fs, ok := x.(*ast.ForStmt)
+			if !ok || fs.Init != nil || fs.Post != nil || fs.Cond == nil {
+				return true
+			}
+			if _, synthetic := p.Info.Types[fs.Cond]; !synthetic {
+				return true // a condition synthesised by the normaliser has no source text
+			}
+			if fs.Cond.Pos() < fs.For || fs.Cond.End() > fs.Body.Lbrace {
+				return true
+			}
+			c, err := nodeText(p, src, fs.Cond)
+			if err != nil {
+				return true
+			}
+			tf, name := p.fileOf(fs.Pos())
+			perFile[name] = append(perFile[name],
+				textEdit{tf.Offset(fs.Cond.Pos()), tf.Offset(fs.Body.Lbrace) + 1, "{\nif !(" + c + ") {\nbreak\n}"})
+			n++
 			return true
 		})
 	}
